@@ -116,8 +116,74 @@ def cases(tier, seed):
                                containers=list(conts))
 
 
+    for kind in ('arr:u2', 'arr:f8', 'fcs:16', 'fcs:F', 'rfi:lin', 'sub:slice'):
+        for k in (1, 2, 3, 4, 5):
+            yield dict(kind='wide', container=kind, k=k, tier=tier)
+
+
+WIDE = [[3, 40, 500, 6, 70], [5, 10, 300, 2, 90], [4, 30, 100, 9, 20], [8, 20, 700, 1, 50]]      # 4 events x 5 channels, every column different
+
+
+def run_wide(c):
+    """every ordered channel list of length k out of 5 channels (positions, names, mixed): the answers are the per-channel
+    answers in the requested order"""
+    import FlowCal
+    res = Result()
+    kind, k = c['container'], c['k']
+    obj, sp, vals = make_container(kind, WIDE, 'pos')
+    named = not kind.startswith('arr')
+    D = 5
+    cols = [tuple(r[j] for r in vals) for j in range(D)]
+    tol = 1e-6 if sp else 1e-9
+    lists = list(itertools.permutations(range(D), k))
+    if k >= 4 and c.get('tier') == 'quick':
+        lists = lists[::6]
+    if k == 3:
+        lists += [(0, 0, 1), (4, 2, 4), (1, 1, 1)]
+    for sel in lists:
+        forms = [list(sel), [j - D for j in sel], tuple(sel)]
+        if named:
+            forms += [['CH%d' % (j + 1) for j in sel], [('CH%d' % (j + 1)) if (i + j) % 2 else j for i, j in enumerate(sel)],
+                      tuple(('CH%d' % (j + 1)) if (i + j) % 2 == 0 else j for i, j in enumerate(sel))]
+        for form in forms:
+            for st in STATS:
+                if 'only' in c and c['only'] != [list(sel), repr(form), st]:
+                    continue
+                one = dict(c, only=[list(sel), repr(form), st])
+                exp = [ref(cols[j])[st] for j in sel]
+                fr = repr(form)
+                try:
+                    with warnings.catch_warnings():
+                        warnings.simplefilter('ignore')
+                        v = np.asarray(getattr(FlowCal.stats, st)(obj, form))
+                except Exception as e:
+                    res.violation('wide:%s:%s:raises:%s' % (st, kind, type(e).__name__), 'stats.%s(%s with 5 channels, channels=%s) raised %s: %s' % (st, kind, fr, type(e).__name__, e), one)
+                    continue
+                if repr(form) != fr:
+                    res.violation('wide:%s:%s:channel-argument-changed' % (st, kind), 'stats.%s(%s, channels=%s) changed the caller\'s channel list to %r' % (st, kind, fr, form), one)
+                    continue
+                if v.shape != (len(sel),):
+                    res.violation('wide:%s:%s:shape' % (st, kind), 'stats.%s(%s with 5 channels, channels=%s) returned shape %s' % (st, kind, fr, v.shape), one)
+                    continue
+                bad = None
+                for i, (gv, e) in enumerate(zip(v.tolist(), exp)):
+                    if e is None:
+                        continue
+                    if (st == 'mode' and not any(float(gv) == float(m) for m in e)) or (st != 'mode' and not close(gv, e, tol)):
+                        bad = (i, gv, e)
+                        break
+                if bad:
+                    res.violation('wide:%s:%s:value' % (st, kind), 'stats.%s(%s with 5 channels, channels=%s): entry %d is %r, the definition on channel %d gives %r' % (
+                        st, kind, fr, bad[0], bad[1], sel[bad[0]], bad[2]), one)
+                    continue
+                res.ok('wide:%s' % st, True)
+    res.sample({'container': kind, 'channels': 5, 'list_length': k, 'lists': len(lists), 'spellings': 'positions, negative positions, names, mixed; lists and tuples'})
+    return res
+
+
 def bounds(tier, seed):
-    return {'max_events': 3 if tier == 'quick' else 4, 'max_channels': 2, 'alphabets': ALPHABETS}
+    return {'max_events': 3 if tier == 'quick' else 4, 'max_channels': 2, 'alphabets': ALPHABETS,
+            'wide': 'all ordered channel lists of length 1..3 (quick; 1..5 thorough, every 6th of length 4, 5 in quick) out of 5 channels x 4 spellings x 6 containers'}
 
 
 def matrix(alpha, N, D, idx):
@@ -206,6 +272,8 @@ def make_container(kind, M, alpha):
 
 def run_case(c):
     import FlowCal
+    if c.get('kind') == 'wide':
+        return run_wide(c)
     res = Result()
     N, D, alpha = c['N'], c['D'], c['alpha']
     single = 'single' in c
